@@ -14,8 +14,19 @@ HS_ACTIONS = ["Start", "Accept", "Finish", "Lose", "Reset"]
 RING_CAP = 100   # NONCES_CAP of p2p/src/handshake.rs = RingCap of spec/mc/MC_HandshakeRing_*.cfg
 
 
+TYPE_NAMES = {0: "Error", 1: "Hand", 2: "Shake", 3: "Ping", 4: "Pong", 5: "GetPeerAddrs", 6: "PeerAddrs", 7: "GetHeaders",
+              8: "Header", 9: "Headers", 10: "GetBlock", 11: "Block", 12: "GetCompactBlock", 13: "CompactBlock",
+              14: "StemTransaction", 15: "Transaction", 16: "TxHashSetRequest", 17: "TxHashSetArchive", 18: "BanReason",
+              19: "GetTransaction", 20: "TransactionKernel", 21: "GetOutputBitmapSegment", 22: "OutputBitmapSegment",
+              23: "GetOutputSegment", 24: "OutputSegment", 25: "GetRangeProofSegment", 26: "RangeProofSegment",
+              27: "GetKernelSegment", 28: "KernelSegment"}
+
+
 def codec_signature(m):
     """Narrow signature of one mismatch reported by `h_codec replay`."""
+    if m["what"] == "trailing_bytes_accepted":
+        # one signature per message type: a body longer than what its items need was accepted
+        return "codec:trailing_bytes_accepted:%s" % TYPE_NAMES.get(m.get("t"), "t%s" % m.get("t"))
     sig = "codec:%s:%s:t%s" % (m["what"], m.get("k", "?"), m.get("t", "?"))
     if m.get("k") == "headers" and m.get("count") == 0 and m.get("items") == 0:
         sig += ":n=0"
@@ -31,6 +42,8 @@ def hs_signature(m):
     c = m["case"]
     if c.get("role") == "ring":
         return "handshake:ring:%s:%s:%s" % (m.get("kind", "?"), m["what"], m.get("when", ""))
+    if m["what"] == "trailing_bytes_accepted":
+        return "codec:trailing_bytes_accepted:%s" % ("Hand" if c["role"] == "accept" else "Shake")
     return "handshake:%s:%s:%s" % (c["role"], m["what"], c["expect"]["res"])
 
 
@@ -374,7 +387,7 @@ def run(tier, replay):
         "the real side of every handshake case has PROTOCOL_VERSION 1000 (the constant of the build); the other model cases are checked in TLC only",
         "bodies of Block/CompactBlock/Transaction/segment-response types are exercised at the framing level only (limits, refusal), not with decodable contents",
         "announced lengths above 2^30 are not in the model (TLC integers); allocations are observed per request through the harness allocator (cap 256 MiB)",
-        "a decodable body followed by bytes its count does not account for (e.g. PeerAddrs count 1 carrying 3 addresses) may be accepted or refused; only exact consumption is required",
+        "a decodable body followed by bytes its items do not account for is refused by the model (the statement's 'item counts inconsistent with its length'); exercised for the types with hand-rendered bodies (3-8, 10, 12, 16-21, 23, 25, 27 and Hand/Shake), not for Block/CompactBlock/Transaction/segment responses",
     ]
     return rep.finish()
 
@@ -450,7 +463,9 @@ def direction_b(rep, wd, thorough, cases):
     spec/trace/CodecTrace.tla (CodecConn.tla run on the recorded frame sequence)."""
     sel = []
     for i, c in enumerate(cases):
-        if c["total"] <= 70000:
+        # (streams with a body longer than its items need are judged per message type by the codec
+        # replay only: codec:trailing_bytes_accepted:<type>)
+        if c["total"] <= 70000 and "trailing" not in c["classes"]:
             c2 = dict(c); c2["case_id"] = i
             sel.append(c2)
     mid = [c for c in sel if any(c["kinds"][:-1])]
